@@ -12,6 +12,9 @@ for d in sorted(glob.glob(os.path.join(V, "seeded", "*"))):
     if sel and not any(mid.startswith(s) for s in sel):
         continue
     meta = json.load(open(os.path.join(d, "meta.json")))
+    if "caught_by" in meta and not meta["caught_by"]:
+        print("SKIPPED " + mid + " (recorded as not caught / not claimed: see its note)", flush=True)
+        continue
     props = meta.get("caught_by") or [meta.get("breaks")]
     r = subprocess.run([os.path.join(V, "tools", "run_seeded.py"), os.path.join(d, "patch.diff"), props[0]], capture_output=True, text=True)
     line = (r.stdout.strip().splitlines() or ["(no output)"])[-1]
